@@ -96,6 +96,12 @@ def run_path(w, path):
             w.do(ev)
 
 
+def _limit_for(n):
+    """packages of two orders are sent through a client without an hourly limit (a legal setting): it is never
+    blocked, but what it sends is counted all the same"""
+    return None if n == 2 else 5000
+
+
 def _one(args):
     kind, n, per, pre, mid, cancel_order, transport, async_place = args
     script, path, call_idx = build_path(kind, n, pre, mid)
@@ -109,7 +115,7 @@ def _one(args):
             fault_plan[call_idx + nerr] = {"per": list(per), "cancel_order": cancel_order}
     else:
         fault_plan[call_idx] = {"per": list(per), "cancel_order": cancel_order}
-    w = livex.LiveWorld(script, fault_plan=fault_plan, async_place=bool(async_place), strategy_kw=dict(max_live_trade_count=5), budgets=dict(fill=9, lapse=9))
+    w = livex.LiveWorld(script, fault_plan=fault_plan, async_place=bool(async_place), strategy_kw=dict(max_live_trade_count=5), budgets=dict(fill=9, lapse=9), transaction_limit=_limit_for(n))
     w.accept_mode = async_place if isinstance(async_place, str) else None
     w.start()
     out = []
@@ -258,7 +264,7 @@ def _sim_one(args):
                 # an instruction is submitted for every order of the package that is still live
                 submitted.append(len([o for o in p._orders if L.sname(o.status) not in ("VIOLATION", "EXECUTION_COMPLETE")]))
 
-    w = simx.SimWorld([(spec, ticks)], [dict(script=scripts[0], kw=dict(max_order_exposure=None, max_selection_exposure=None, max_live_trade_count=5))], cfg=dict(place_latency=0.12), hooks=H())
+    w = simx.SimWorld([(spec, ticks)], [dict(script=scripts[0], kw=dict(max_order_exposure=None, max_selection_exposure=None, max_live_trade_count=5))], cfg=dict(place_latency=0.12), hooks=H(), client_kw={0: dict(transaction_limit=_limit_for(n))})
     w.run()
     out = []
     counts = {"clause:C12.a": 0, "clause:C12.b": 0, "clause:C12.e": 0, "sim_packages": 1, "sim_failures": 0}
@@ -346,8 +352,81 @@ def sim_jobs(tier):
     return jobs
 
 
+# ---- E4: two execution workers answering for two orders of ONE trade at the same time -------------------
+def _thr_trade(args):
+    """two PLACE packages (one order each, same trade) are answered concurrently by two execution-pool workers:
+    every schedule with <= bound preemptions inside Trade.__enter__/__exit__/_update_status must leave the trade
+    LIVE (not in its transient PENDING state) and both orders EXECUTABLE."""
+    (bound,) = args
+    from mc import thrx
+    from betfairlightweight import resources
+    from flumine.clients import BetfairClient
+    from flumine.order.trade import Trade
+    from flumine.order.ordertype import LimitOrder
+    from flumine.order.orderpackage import BetfairOrderPackage, OrderPackageType
+    from flumine import BaseStrategy
+
+    viol = []
+    outcomes = set()
+    LiveFlumine, _ = livex.live_classes()
+    upd = Trade._update_status
+    codes = [Trade.__enter__.__code__, Trade.__exit__.__code__, upd.__code__]
+    if hasattr(upd, "__wrapped__"):
+        codes.append(upd.__wrapped__.__code__)
+
+    def make():
+        class _BC:
+            lightweight = False
+            username = "thr"
+
+        client = BetfairClient(_BC())
+        fw = LiveFlumine(client)
+        st = BaseStrategy(market_filter={}, name="thr", max_order_exposure=None, max_selection_exposure=None)
+        fw.strategies(st, fw.clients, fw)
+        trade = Trade("1.100000001", 1, 0, st)
+        ex = fw.betfair_execution
+        pkgs = []
+        for i in range(2):
+            o = trade.create_order("BACK", LimitOrder(2.2 + 0.2 * i, 2.0))
+            o.update_client(client)
+            o.place(0, None, False)
+            pkgs.append(BetfairOrderPackage(client=client, market_id="1.100000001", orders=[o], package_type=OrderPackageType.PLACE, bet_delay=0, market_version=None))
+
+        def helper(fn, package, session):
+            o = list(package)[0]
+            return resources.PlaceOrders(
+                elapsed_time=0.01,
+                marketId=package.market_id,
+                status="SUCCESS",
+                instructionReports=[{"status": "SUCCESS", "orderStatus": "EXECUTABLE", "betId": str(1000 + trade.orders.index(o)), "placedDate": "2023-11-14T22:13:20.000Z", "averagePriceMatched": 0.0, "sizeMatched": 0.0, "instruction": o.create_place_instruction()}],
+            )
+
+        ex._execution_helper = helper
+        bodies = [(lambda p=p: ex.execute_place(p, None)) for p in pkgs]
+        return bodies, codes, dict(trade=trade)
+
+    def check(ctx, s):
+        t = ctx["trade"]
+        got = (L.sname(t.status), tuple(L.sname(o.status) for o in t.orders))
+        outcomes.add(got)
+        case = dict(thr_trade=[bound], choices=[p[2] for p in s.points])
+        if s.errors:
+            viol.append(core.v("C12.a", ("place", 2, "threads", "none-completed", "exception"), "worker raised: %s" % s.errors[0][-300:], case))
+        elif got != ("LIVE", ("EXECUTABLE", "EXECUTABLE")):
+            viol.append(core.v("C12.a", ("place", 2, "threads", "none-completed", "trade-" + got[0]), "two placements of one trade answered concurrently: trade %s, orders %s" % got, case, size=sum(1 for p in s.points if p[2])))
+
+    with core.owned_config(simulated=False):
+        st = thrx.explore(make, check, bound, cap=60000)
+    best = {}
+    for d in viol:
+        k = tuple(d["key"])
+        if k not in best or d.get("size", 0) < best[k].get("size", 0):
+            best[k] = d
+    return dict(violations=list(best.values()), stats=st, outcomes=len(outcomes))
+
+
 def run(tier):
-    rep = core.Report("C12", tier, "E2 livex + E1 simx")
+    rep = core.Report("C12", tier, "E2 livex + E1 simx + E4 thrx")
     jobs = jobs_for(tier)
     for r in core.pmap(_one, jobs):
         rep.add_violations(r["violations"])
@@ -358,6 +437,12 @@ def run(tier):
         rep.add_violations(r["violations"])
         rep.merge_counts(r["counts"])
         rep.outcomes.add(r["outcome"])
+    r = core.pmap(_thr_trade, [(2 if tier != "thorough" else 3,)], chunk=1)[0]
+    rep.add_violations(r["violations"])
+    rep.count("thread_schedules", r["stats"]["schedules"], mandatory=True)
+    rep.count("clause:C12.a", r["stats"]["schedules"])
+    if r["stats"]["capped"]:
+        rep.caps_hit.append("thrx schedule cap")
     rep.need("requests_finished", "retries_seen", "retries_exhausted", "completed_meanwhile", "failure_reports", "timeouts", "sim_packages", "sim_failures")
     rep.states = len(jobs) + len(sj)
     rep.transitions = rep.states
@@ -379,7 +464,9 @@ def run(tier):
 
 def replay(rep):
     c = rep["case"]
-    if "sim" in c:
+    if "thr_trade" in c:
+        r = _thr_trade(tuple(c["thr_trade"]))
+    elif "sim" in c:
         r = _sim_one(tuple(c["sim"]))
     else:
         a = c["args"]
